@@ -342,7 +342,11 @@ func (c *checker) checkFormula(text, decoLabel, root string, bind int) (res form
 		}
 		if !ok {
 			cs.Bind = b
-			c.violation("C19/value/"+decoLabel+"/"+root, fmt.Sprintf("formula %q with %s evaluates to %v; its parse under the stated order of operations gives %s\nreference parse: %s", text, en, v, fmtVals(want), showNode(trees[0].n)), cs)
+			sig := "C19/value/" + decoLabel
+			if decoLabel == decoName[dNone] {
+				sig += "/" + root // undecorated trees: the group of the root operator
+			}
+			c.violation(sig, fmt.Sprintf("formula %q with %s evaluates to %v; its parse under the stated order of operations gives %s\nreference parse: %s", text, en, v, fmtVals(want), showNode(trees[0].n)), cs)
 		}
 	}
 	return
@@ -484,25 +488,26 @@ func (c *checker) checkTemplate(text string, base *formulaResult, quoted, optimi
 // ------------------------------------------------------------------ enumeration
 
 type tierParams struct {
-	maxOps         int
-	fullLeavesUpTo int   // trees with at most this many operators use the whole leaf pool
-	reducedLeaves  []int // leaf pool (indexes into leafPool) of bigger trees
-	smallPool      []int // decorations/substitutions on bigger trees only when every leaf is in this pool
-	tinyPool       []int // ... and on the biggest trees only when every leaf is in this pool
-	compactUpTo    int   // compact (no spaces) style for trees up to this size
-	decoFullUpTo   int   // decorations on every tree up to this size
-	decoSmallUpTo  int   // decorations on small-pool trees up to this size
-	decoTinyUpTo   int   // decorations on tiny-pool trees up to this size
-	funcs          []string
-	substFullUpTo  int // substitutions on every undecorated tree up to this size (decorated: one operator less)
-	substSmallUpTo int // substitutions on undecorated small-pool trees up to this size
-	substTinyUpTo  int // substitutions on undecorated tiny-pool trees up to this size
-	templateUpTo   int // `{! ...}` checks on undecorated trees up to this size (decorated: one operator less)
-	tokenLen       int
-	tokenAlphabet  []string
-	tokenLenSmall  int // longer strings over the small alphabet
-	tokenSmall     []string
-	tokenTemplate  int // token strings up to this length also through templates
+	maxOps          int
+	fullLeavesUpTo  int   // trees with at most this many operators use the whole leaf pool
+	reducedLeaves   []int // leaf pool (indexes into leafPool) of bigger trees
+	smallPool       []int // decorations/substitutions on bigger trees only when every leaf is in this pool
+	tinyPool        []int // ... and on the biggest trees only when every leaf is in this pool
+	compactUpTo     int   // compact (no spaces) style for undecorated trees up to this size
+	compactDecoUpTo int   // ... for decorated trees up to this size
+	decoFullUpTo    int   // decorations on every tree up to this size
+	decoSmallUpTo   int   // decorations on small-pool trees up to this size
+	decoTinyUpTo    int   // decorations on tiny-pool trees up to this size
+	funcs           []string
+	substFullUpTo   int // substitutions on every undecorated tree up to this size (decorated: one operator less)
+	substSmallUpTo  int // substitutions on undecorated small-pool trees up to this size
+	substTinyUpTo   int // substitutions on undecorated tiny-pool trees up to this size
+	templateUpTo    int // `{! ...}` checks on undecorated trees up to this size (decorated: one operator less)
+	tokenLen        int
+	tokenAlphabet   []string
+	tokenLenSmall   int // longer strings over the small alphabet
+	tokenSmall      []string
+	tokenTemplate   int // token strings up to this length also through templates
 }
 
 var tokenAlphabetFull = []string{"2", "0.5", "x", "[0]", "+", "-", "*", "^", "<<", "&&", "!", "(", ")", "abs"}
@@ -511,12 +516,12 @@ var tokenAlphabetSmall = []string{"2", "x", "+", "-", "^", "!", "(", ")", "abs"}
 func params(quick bool) tierParams {
 	if quick {
 		return tierParams{maxOps: 3, fullLeavesUpTo: 2, reducedLeaves: []int{1, 5}, smallPool: []int{1, 5, 6}, tinyPool: []int{1, 5},
-			compactUpTo: 2, decoFullUpTo: 1, decoSmallUpTo: 2, decoTinyUpTo: 2, funcs: []string{"abs"},
+			compactUpTo: 2, compactDecoUpTo: 2, decoFullUpTo: 1, decoSmallUpTo: 2, decoTinyUpTo: 2, funcs: []string{"abs"},
 			substFullUpTo: 1, substSmallUpTo: 2, substTinyUpTo: 2, templateUpTo: 1,
 			tokenLen: 5, tokenAlphabet: tokenAlphabetFull, tokenLenSmall: 6, tokenSmall: tokenAlphabetSmall, tokenTemplate: 3}
 	}
 	return tierParams{maxOps: 3, fullLeavesUpTo: 2, reducedLeaves: []int{1, 2, 5, 6}, smallPool: []int{1, 5, 6}, tinyPool: []int{1, 5},
-		compactUpTo: 3, decoFullUpTo: 2, decoSmallUpTo: 2, decoTinyUpTo: 3, funcs: []string{"abs", "sqrt", "floor"},
+		compactUpTo: 3, compactDecoUpTo: 1, decoFullUpTo: 2, decoSmallUpTo: 2, decoTinyUpTo: 3, funcs: []string{"abs", "sqrt", "floor"},
 		substFullUpTo: 2, substSmallUpTo: 2, substTinyUpTo: 3, templateUpTo: 2,
 		tokenLen: 6, tokenAlphabet: tokenAlphabetFull, tokenLenSmall: 7, tokenSmall: tokenAlphabetSmall, tokenTemplate: 4}
 }
@@ -615,8 +620,10 @@ func (c *checker) treeCase(sh *shape, n int, tp *tierParams) {
 	if n <= tp.decoFullUpTo || (n <= tp.decoSmallUpTo && small) || (n <= tp.decoTinyUpTo && tiny) {
 		for _, nd := range sh.all {
 			decos = append(decos, deco{at: nd, kind: dNeg}, deco{at: nd, kind: dNot}, deco{at: nd, kind: dParen})
-			for _, fn := range tp.funcs {
-				decos = append(decos, deco{at: nd, kind: dFunc, fn: fn})
+			for i, fn := range tp.funcs {
+				if i == 0 || n <= tp.decoSmallUpTo { // the biggest trees get the first function only
+					decos = append(decos, deco{at: nd, kind: dFunc, fn: fn})
+				}
 			}
 			if nd.k == nBin && nd.name == "*" {
 				decos = append(decos, deco{at: nd, kind: dImplied})
@@ -639,7 +646,7 @@ func (c *checker) treeCase(sh *shape, n int, tp *tierParams) {
 		c.selfCheck(sh.root, d, spaced)
 
 		compact := spaced
-		if n <= tp.compactUpTo && (d.kind == dNone || n <= 2) {
+		if n <= tp.compactUpTo && (d.kind == dNone || n <= tp.compactDecoUpTo) {
 			compact = printTree(sh.root, d, false)
 		}
 		if compact != spaced {
@@ -856,8 +863,8 @@ func main() {
 		Level:      "exploration",
 		Rule: func(prop, tier string) string {
 			tp := params(tier != "thorough")
-			return fmt.Sprintf("every binary-operator tree (all shapes) with 0..%d operators over the 17 binary operators {%s}; leaves: all assignments over {%s} for trees with <=%d operators, over {%s} for bigger trees; printed with minimal parentheses (shift/bit operators, whose level the statement does not give, always parenthesised against other groups) with single spaces, and without spaces for trees with <=%d operators; at most one decoration (prefix -, prefix !, function in {%s}, redundant parentheses at every node; implied multiplication at every * node) on all trees with <=%d operators, on trees with <=%d operators whose leaves are in {%s} and on trees with <=%d operators whose leaves are in {%s}; each formula compiled by stdmath.Compile and evaluated under 6 binding vectors (x,[0],y rotate through 0,1,-1,2.5,-3,1e18) against the value of an independent parse; undecorated trees with <=%d operators (decorated: one less) also through `{! f}` and `{! \"f\"}` templates with and without key-builder optimisation; substitution on undecorated trees with <=%d operators, on undecorated trees with <=%d operators over {%s} and <=%d operators over {%s}, on decorated trees with <=%d operators: every constant alone and all together replaced by bound variables, every variable alone and all together replaced by its value per binding vector; every token string with 0..%d tokens over {%s} and %d..%d tokens over {%s} joined by spaces for accept/reject (up to %d tokens also through templates). non-trivial = the formula compiled and a value determined by the statement was compared on at least one binding, or (token strings) a malformed string was rejected",
-				tp.maxOps, strings.Join(binOps, " "), poolNames([]int{0, 1, 2, 3, 4, 5, 6, 7}), tp.fullLeavesUpTo, poolNames(tp.reducedLeaves), tp.compactUpTo, strings.Join(tp.funcs, ","),
+			return fmt.Sprintf("every binary-operator tree (all shapes) with 0..%d operators over the 17 binary operators {%s}; leaves: all assignments over {%s} for trees with <=%d operators, over {%s} for bigger trees; printed with minimal parentheses (shift/bit operators, whose level the statement does not give, always parenthesised against other groups) with single spaces, and without spaces for undecorated trees with <=%d and decorated trees with <=%d operators; at most one decoration (prefix -, prefix !, function in {%s} (bigger trees than %d operators: the first only), redundant parentheses at every node; implied multiplication at every * node) on all trees with <=%d operators, on trees with <=%d operators whose leaves are in {%s} and on trees with <=%d operators whose leaves are in {%s}; each formula compiled by stdmath.Compile and evaluated under 6 binding vectors (x,[0],y rotate through 0,1,-1,2.5,-3,1e18) against the value of an independent parse; undecorated trees with <=%d operators (decorated: one less) also through `{! f}` and `{! \"f\"}` templates with and without key-builder optimisation; substitution on undecorated trees with <=%d operators, on undecorated trees with <=%d operators over {%s} and <=%d operators over {%s}, on decorated trees with <=%d operators: every constant alone and all together replaced by bound variables, every variable alone and all together replaced by its value per binding vector; every token string with 0..%d tokens over {%s} and %d..%d tokens over {%s} joined by spaces for accept/reject (up to %d tokens also through templates). non-trivial = the formula compiled and a value determined by the statement was compared on at least one binding, or (token strings) a malformed string was rejected",
+				tp.maxOps, strings.Join(binOps, " "), poolNames([]int{0, 1, 2, 3, 4, 5, 6, 7}), tp.fullLeavesUpTo, poolNames(tp.reducedLeaves), tp.compactUpTo, tp.compactDecoUpTo, strings.Join(tp.funcs, ","), tp.decoSmallUpTo,
 				tp.decoFullUpTo, tp.decoSmallUpTo, poolNames(tp.smallPool), tp.decoTinyUpTo, poolNames(tp.tinyPool), tp.templateUpTo,
 				tp.substFullUpTo, tp.substSmallUpTo, poolNames(tp.smallPool), tp.substTinyUpTo, poolNames(tp.tinyPool), tp.substFullUpTo-1,
 				tp.tokenLen, strings.Join(tp.tokenAlphabet, " "), tp.tokenLen+1, tp.tokenLenSmall, strings.Join(tp.tokenSmall, " "), tp.tokenTemplate)
